@@ -135,3 +135,57 @@ Proof.
   - apply nth_set_nth_same. exact Hi.
   - intros i Hne. apply nth_set_nth_other. lia.
 Qed.
+
+(* C02-T1: what one end seals the other end opens, byte-identical, whenever the receiver holds the
+   sender's current key under that key id, reconstructs the nonce that was used (opposite halves,
+   counter within the 56 transmitted bits) and its window admits the counter *)
+Theorem core_roundtrip : forall c1 c2 p, wf_core c1 -> wf_core c2 ->
+  s_key (get_slot c2 (current c1)) = s_key (get_slot c1 (current c1)) ->
+  let n' := nonce_increment (s_send (get_slot c1 (current c1))) in
+  nonce_rebuild (half c2) (nonce_wire n') = n' ->
+  accepts (s_win (get_slot c2 (current c1))) (be_val n') = true ->
+  snd (core_decrypt c2 (snd (core_encrypt c1 p))) = Ok p.
+Proof.
+  intros c1 c2 p H1 H2 Hk n' Hn Ha. unfold core_encrypt. cbn [snd].
+  apply decrypt_ok_iff; [exact H2|]. destruct H1 as [_ Hc]. split; [exact Hc|]. fold n'. rewrite Hn, Hk. split; [reflexivity|exact Ha].
+Qed.
+
+(* C02-T2 corollaries: reflected, foreign, altered and truncated datagrams never open *)
+Corollary reflected_never_opens : forall c p, wf_core c ->
+  nth_b 0%nat (nonce_increment (s_send (get_slot c (current c)))) = (if half c then 128 else 0) ->
+  is_ok (snd (core_decrypt (fst (core_encrypt c p)) (snd (core_encrypt c p)))) = false.
+Proof.
+  intros c p Hwf Hb. destruct (snd (core_decrypt (fst (core_encrypt c p)) (snd (core_encrypt c p)))) as [q|e|s] eqn:E; try reflexivity.
+  exfalso. unfold core_encrypt in E. cbn [fst snd] in E.
+  apply decrypt_ok_iff in E.
+  - destruct E as (_ & Hx & _). inversion Hx as [[Hk Hn]]. cbn [half set_slot] in Hn.
+    set (n' := nonce_increment (s_send (get_slot c (current c)))) in *.
+    assert (Hh : nth_b 0%nat (nonce_rebuild (half c) (nonce_wire n')) = (if half c then 0 else 128)) by (unfold nonce_rebuild; destruct (half c); reflexivity).
+    rewrite <- Hn in Hh. rewrite Hh in Hb. destruct (half c); discriminate.
+  - destruct Hwf as [Hl Hc]. split; [cbn [slots set_slot]; rewrite length_set_nth; exact Hl|exact Hc].
+Qed.
+
+Corollary foreign_key_never_opens : forall c keyid ctr7 k nn p j, wf_core c -> keyid < 4 ->
+  k <> s_key (get_slot c keyid) -> is_ok (snd (core_decrypt c (DG keyid ctr7 (Seal k nn p) j))) = false.
+Proof.
+  intros c keyid ctr7 k nn p j Hwf Hk Hne.
+  destruct (snd (core_decrypt c (DG keyid ctr7 (Seal k nn p) j))) as [q|e|s] eqn:E; try reflexivity.
+  apply decrypt_ok_iff in E; [|exact Hwf]. destruct E as (_ & Hx & _). inversion Hx. congruence.
+Qed.
+
+Corollary altered_never_opens : forall c d pos bit, (8 <= pos)%nat ->
+  is_ok (snd (core_decrypt c (dgram_flip d pos bit))) = false.
+Proof.
+  intros c d pos bit Hp. destruct d as [keyid ctr7 x j|len]; [|reflexivity].
+  unfold dgram_flip. destruct pos as [|q]; [lia|]. assert (Nat.ltb q 7 = false) as -> by (apply Nat.ltb_ge; lia).
+  unfold core_decrypt. destruct (4 <=? keyid); [reflexivity|].
+  destruct (be_val (nonce_rebuild (half c) ctr7) <? minn (s_win (get_slot c keyid))); reflexivity.
+Qed.
+
+Corollary truncated_never_opens : forall c d len, (len < dgram_len d)%nat -> is_ok (snd (core_decrypt c (dgram_truncate d len))) = false.
+Proof.
+  intros c d len H. unfold dgram_truncate. assert (Nat.leb (dgram_len d) len = false) as -> by (apply Nat.leb_gt; exact H).
+  destruct (Nat.ltb len 24); [reflexivity|]. destruct d as [keyid ctr7 x j|n]; [|reflexivity].
+  unfold core_decrypt. destruct (4 <=? keyid); [reflexivity|].
+  destruct (be_val (nonce_rebuild (half c) ctr7) <? minn (s_win (get_slot c keyid))); reflexivity.
+Qed.
